@@ -4,12 +4,13 @@ function's text with comments and blank runs removed), so only a change of the c
 state the digests the models were written against; a different digest means the model is no longer known to describe the
 code (reported like every broken correspondence: the checks then look for a failing input).  Recorded digests are updated
 with tools/repin.py after a deliberate change of /repo (a fix: commit) has been carried over into the models."""
+import os
 import ast
 import hashlib
 import re
 from pathlib import Path
 
-SRC = Path("/repo/src/wikitextprocessor")
+SRC = Path(os.environ.get("VERIF_REPO", "/repo")) / "src/wikitextprocessor"
 
 # pin name -> (file, dotted path of the function inside the module: Class.method or function[.inner])
 PY_PINS = {
@@ -20,6 +21,17 @@ PY_PINS = {
     "subtitle_end_fn": ("parser.py", "subtitle_end_fn"),
     "hline_fn": ("parser.py", "hline_fn"),
     "parse_attrs": ("parser.py", "parse_attrs"),
+    "table_start_fn": ("parser.py", "table_start_fn"),
+    "table_caption_fn": ("parser.py", "table_caption_fn"),
+    "table_row_fn": ("parser.py", "table_row_fn"),
+    "table_hdr_cell_fn": ("parser.py", "table_hdr_cell_fn"),
+    "table_cell_fn": ("parser.py", "table_cell_fn"),
+    "double_vbar_fn": ("parser.py", "double_vbar_fn"),
+    "vbar_fn": ("parser.py", "vbar_fn"),
+    "table_end_fn": ("parser.py", "table_end_fn"),
+    "table_check_attrs": ("parser.py", "table_check_attrs"),
+    "table_row_check_attrs": ("parser.py", "table_row_check_attrs"),
+    "check_for_attributes": ("parser.py", "check_for_attributes"),
     "template_parameters": ("parser.py", "TemplateNode.template_parameters"),
     "expand": ("core.py", "Wtp.expand"),
     "finalize_expand": ("core.py", "Wtp._finalize_expand"),
@@ -64,7 +76,8 @@ LUA_PINS = {
 BY_PROPERTY = {
     "C01": ["merge_str_children"],
     "C02": ["list_fn", "pop_until_nth_list", "subtitle_start_fn", "subtitle_end_fn", "hline_fn"],
-    "C03": ["parse_attrs"],
+    "C03": ["parse_attrs", "table_start_fn", "table_caption_fn", "table_row_fn", "table_hdr_cell_fn", "table_cell_fn",
+            "double_vbar_fn", "vbar_fn", "table_end_fn", "table_check_attrs", "table_row_check_attrs", "check_for_attributes"],
     "C04": ["expand", "finalize_expand", "if_fn", "ifeq_fn", "switch_fn"],
     "C05": ["detect_loop"],
     "C07": ["lua_invoke", "lua_set_timeout", "lua_clear_timeout_hook"],
